@@ -358,7 +358,22 @@ class NamingScenario(StateScenario):
                     wellformed = False
                     break
                 i += 1 if how == "bool" else 2
-            if wellformed:
+            values_ok = True
+            i = 0
+            while wellformed and i < len(argv):
+                how = known[argv[i]]
+                if how != "bool":
+                    dest = next(d for d in table if option_of(d) == argv[i])
+                    import re as _re
+                    node_ = table[dest][1]
+                    if not isinstance(model.norm(dict(node_, validator=None), argv[i + 1], st.ctx), OK):
+                        values_ok = False      # a parser may refuse an invalid value itself (type=int ...)
+                    if node_["kind"] in ("int", "port") and not _re.fullmatch(r"\d+", argv[i + 1]):
+                        values_ok = False      # ... or a spelling of a number that only the field's own conversion accepts
+                    if node_["kind"] == "float" and not _re.fullmatch(r"\d+(\.\d+)?", argv[i + 1]):
+                        values_ok = False
+                i += 1 if how == "bool" else 2
+            if wellformed and values_ok:
                 rec.check()
                 rec.fail("C16/parser", "C16/generated-parser-rejects-command-line", "the generated parser refused %r, which uses only generated options" % (argv,))
             return
@@ -401,23 +416,31 @@ class NamingScenario(StateScenario):
         rec.check()
         verdicts = {d: model.norm(want[d][1], v, st.ctx) for d, v in effective.items() if d not in ("vhi", "vlo") or pre_pair is None}
         if pre_pair is not None:
-            # the pair is judged by applying the supplied options one by one in declaration order (vhi, then vlo)
-            cur, stopped = dict(pre_pair), False
-            for d, sib, ge in (("vhi", "vlo", True), ("vlo", "vhi", False)):
-                if d not in effective:
-                    continue
-                base = model.norm({"kind": "int", "o": {}}, effective[d], st.ctx)
-                if stopped or not isinstance(base, OK):
-                    verdicts[d] = REJ if not stopped else model.UNSPEC
-                    stopped = True
-                    continue
-                s_ = cur.get(sib)
-                bad = isinstance(s_, int) and ((base.v < s_) if ge else (base.v > s_))
-                verdicts[d] = REJ if bad else base
-                if bad:
-                    stopped = True
-                else:
-                    cur[d] = base.v
+            # the pair's validators read each other, so the outcome may depend on the order in which the supplied options
+            # are applied, which the statement does not fix: a verdict is claimed only if both orders agree on it
+            def simulate(order):
+                cur, out, stopped = dict(pre_pair), {}, False
+                for d, sib, ge in order:
+                    if d not in effective:
+                        continue
+                    base = model.norm({"kind": "int", "o": {}}, effective[d], st.ctx)
+                    if stopped:
+                        out[d] = model.UNSPEC
+                        continue
+                    if not isinstance(base, OK):
+                        out[d], stopped = REJ, True
+                        continue
+                    s_ = cur.get(sib)
+                    if isinstance(s_, int) and ((base.v < s_) if ge else (base.v > s_)):
+                        out[d], stopped = REJ, True
+                    else:
+                        out[d], cur[d] = base, base.v
+                return out
+            pair = (("vhi", "vlo", True), ("vlo", "vhi", False))
+            one, two = simulate(pair), simulate(pair[::-1])
+            for d in one:
+                same = (isinstance(one[d], OK) and isinstance(two[d], OK) and one[d].v == two[d].v) or (one[d] == REJ and two[d] == REJ)
+                verdicts[d] = one[d] if same else model.UNSPEC
         any_rej = any(r == REJ for r in verdicts.values())
         if err is None and any_rej:
             rec.fail("C16/override", "C16/invalid-argument-accepted", "an invalid command-line value was applied without error: %r" % (argv,))
